@@ -277,3 +277,44 @@ Proof.
   intros H. unfold lse, ssum. rewrite (emax_all_ninf l H). simpl.
   rewrite efold_bad. reflexivity.
 Qed.
+
+(* ---------- shift law with -inf entries present ---------- *)
+Lemma ln_sum_shift xs c : xs <> [] ->
+  ln (sumR (map exp (map (fun a => a + c) xs))) = ln (sumR (map exp xs)) + c.
+Proof.
+  intros Hne.
+  assert (E : map exp (map (fun a => a + c) xs) = map (fun a => exp c * a) (map exp xs)).
+  { rewrite !map_map. apply map_ext; intro a. rewrite exp_plus. ring. }
+  rewrite E, sumR_scal, ln_mult, ln_exp.
+  - apply Rplus_comm.
+  - apply exp_pos.
+  - apply sumR_pos. destruct xs; simpl; congruence.
+    intros a Ha. apply in_map_iff in Ha. destruct Ha as [b [<- _]]. apply exp_pos.
+Qed.
+
+Lemma fins_shift c l :
+  fins (map (fun a => e_add a (Fin c)) l) = map (fun a => a + c) (fins l).
+Proof.
+  induction l as [|b l IH]; [reflexivity|].
+  destruct b as [|x|]; simpl; rewrite ?IH; reflexivity.
+Qed.
+
+Lemma no_bad_shift c l : no_bad l -> no_bad (map (fun a => e_add a (Fin c)) l).
+Proof.
+  intros H a Ha. apply in_map_iff in Ha. destruct Ha as [b [<- Hb]].
+  specialize (H b Hb). destruct b; simpl; congruence.
+Qed.
+
+Theorem lse_neginf_shift e0 el c : no_bad (e0 :: el) -> fins (e0 :: el) <> [] ->
+  lse (Sc:=EOps) (e_add e0 (Fin c)) (map (fun a => e_add a (Fin c)) el)
+  = e_add (lse (Sc:=EOps) e0 el) (Fin c).
+Proof.
+  intros Hnb Hne.
+  destruct (lse_neginf e0 el Hnb Hne) as [E _]. rewrite E.
+  pose proof (no_bad_shift c (e0 :: el) Hnb) as Hnb'.
+  pose proof (fins_shift c (e0 :: el)) as Hf. simpl map in Hnb', Hf.
+  assert (Hne' : fins (e_add e0 (Fin c) :: map (fun a => e_add a (Fin c)) el) <> []).
+  { rewrite Hf. intro Hm. apply map_eq_nil in Hm. exact (Hne Hm). }
+  destruct (lse_neginf _ _ Hnb' Hne') as [E' _]. rewrite E', Hf.
+  simpl. f_equal. apply ln_sum_shift. exact Hne.
+Qed.
